@@ -117,6 +117,14 @@ def analyse_heuristic(ctx: Ctx, prog: Program, fn: FuncInfo, label: str) -> int:
             lvl = _const(e.idx[0] - T) if e.idx and isinstance(e.idx[0], Aff) else None
             if e.root == troot:
                 continue
+            if e.idx and isinstance(e.idx[0], tuple) and e.idx[0][0] == "slice" and isinstance(e.idx[0][1], Aff) and isinstance(e.idx[0][2], Aff):
+                # a block of levels lo:hi written at once (copy of a whole level into several new levels)
+                lo_, hi_ = _const(e.idx[0][1] - T), _const(e.idx[0][2] - T)
+                src = as_view(e.value)
+                whole_level_copy = isinstance(src, View) and src.root == e.root and len(src.idx) == 1 and isinstance(src.idx[0], Aff) \
+                    and all(c == ALL for c in e.idx[1:])
+                if lo_ is not None and hi_ is not None and 0 <= lo_ and hi_ - 1 <= k and whole_level_copy and _const(src.idx[0] - T) is not None and _const(src.idx[0] - T) < lo_:
+                    continue
             if lvl is None or lvl < 0 or lvl > k:
                 confined = False
                 ctx.violation("R-PARTITION", fn.path, label, f"store-level:{e.root}", f"{fn.path}:{e.line}",
@@ -141,6 +149,24 @@ def analyse_heuristic(ctx: Ctx, prog: Program, fn: FuncInfo, label: str) -> int:
                               f"{label}: writes the enabled-constraints stack other than by the push copy ({View(e.root, e.idx)!r})")
         if confined:
             ctx.ok("R-PARTITION", f"{inst}:confined", sample=None)
+        # ------------------------------------- every new level starts as a copy of the level it was pushed from
+        xo, yo = S("x_other"), S("y_bound")
+        s2 = s.fork()
+        s2.facts.add(cmp_cond("!=", xo, d))
+        for j in range(1, k + 1):
+            fl = it.load_at(s2, len(s2.heap), froot, (T.addc(j), xo))
+            if fl == init(froot, T, xo):
+                ctx.ok("R-PUSH-POP", f"{inst}:L{j}:flags = flags of the level branched from")
+            else:
+                ctx.violation("R-PUSH-POP", fn.path, label, f"push-flags-row:{where[1]}:L{j}", where[0],
+                              f"{label}: the enabled flags of the new level T+{j} are {show_val(fl)}, not a copy of those of the level the decision was taken at: "
+                              "the sub-tree runs with whatever flags an earlier visit left in that row (constraints wrongly disabled or enabled)")
+            ot = it.load_at(s2, len(s2.heap), sroot, (T.addc(j), xo, yo))
+            if ot == init(sroot, T, xo, yo):
+                ctx.ok("R-PUSH-POP", f"{inst}:L{j}:other domains = those of the level branched from")
+            else:
+                ctx.violation("R-PUSH-POP", fn.path, label, f"push-other-domains:{where[1]}:L{j}", where[0],
+                              f"{label}: at the new level T+{j} a domain other than the chosen one is {show_val(ot)}, not its value at the level the decision was taken at")
         # ------------------------------------------------------ the partition
         ivs: List[Tuple[int, Aff, Aff]] = []
         for j in range(k + 1):
